@@ -372,37 +372,38 @@ namespace AIToolbox {
             enumerator.reset();
 
             // Get subset of planes, find corner with LU
-            size_t last = 0;
             while (enumerator.isValid()) {
-                // Reset boundaries to care about all dimensions
-                boundary.head(S).fill(1.0);
-                size_t counter = last + 1;
-                // Note that we start from last to avoid re-copying vectors
-                // that are already in the matrix in their correct place.
-                for (auto i = last; i < enumerator->size(); ++i) {
-                    // For each value in the enumerator, if it is less than
-                    // alphasSize it is referring to an alphaVector we need to
-                    // take into account.
+                // Each selected element gives one equation: an alphavector
+                // must have the same value as the new one at the vertex,
+                // while a boundary forces its dimension to zero. Together
+                // with the new vector (first row) and the normalization of
+                // the belief (last row) we get exactly S+1 equations.
+                size_t counter = 1;
+                for (size_t i = 0; i < enumerator->size(); ++i) {
                     const auto index = (*enumerator)[i];
                     if (index < alphasSize) {
-                        // Copy the right vector in the matrix.
                         m.row(counter).head(S) = std::invoke(p2, *std::next(alphasBegin, index));
                         m.row(counter)[S] = -1;
-                        ++counter;
                     } else {
-                        // We limit the index-th dimension (minus alphasSize to scale in a 0-S range)
-                        boundary[index - alphasSize] = 0.0;
+                        m.row(counter).setZero();
+                        m.row(counter)[index - alphasSize] = 1.0;
                     }
+                    ++counter;
                 }
+                boundary.head(S).fill(1.0);
                 m.row(counter) = boundary;
                 b[counter] = 1.0;
                 ++counter;
 
-                // Note that we only need to consider the first "counter" rows,
-                // as the boundaries get merged in a single one.
                 result = m.topRows(counter).colPivHouseholderQr().solve(b.head(counter));
 
                 b[counter-1] = 0.0;
+
+                // The dimensions we have limited are zero by construction,
+                // do not let numerical noise put them outside the simplex.
+                for (size_t i = 0; i < enumerator->size(); ++i)
+                    if ((*enumerator)[i] >= alphasSize)
+                        result[(*enumerator)[i] - alphasSize] = 0.0;
 
                 // Add to found only if valid, otherwise skip.
                 const double max = result.head(S).maxCoeff();
@@ -411,9 +412,7 @@ namespace AIToolbox {
                     vertices.second.emplace_back(result[S]);
                 }
 
-                // Advance, and take the id of the first index changed in the
-                // next combination.
-                last = enumerator.advance();
+                enumerator.advance();
 
                 // If the index went over the alpha list, then we'd only have
                 // boundaries, but we don't care about those cases (since we
